@@ -18,6 +18,9 @@ import (
 
 const (
 	EncodingDeflate = "urn:oasis:names:tc:SAML:2.0:bindings:URL-Encoding:DEFLATE"
+
+	// maxInflatedSize is the limit net/http places on form bodies (10 MB)
+	maxInflatedSize = 10 << 20
 )
 
 func Marshal(data interface{}) ([]byte, error) {
@@ -158,7 +161,15 @@ func InflateAndDecode(encoding string, b64 bool, message string) (_ []byte, err 
 	case EncodingDeflate:
 		r := flate.NewReader(bytes.NewBuffer(data))
 		defer r.Close()
-		return io.ReadAll(r)
+		// never inflate more than a request body may hold: a small payload can expand a thousandfold
+		inflated, err := io.ReadAll(io.LimitReader(r, maxInflatedSize+1))
+		if err != nil {
+			return nil, err
+		}
+		if len(inflated) > maxInflatedSize {
+			return nil, fmt.Errorf("inflated message is larger than %d bytes", maxInflatedSize)
+		}
+		return inflated, nil
 	default:
 		return nil, fmt.Errorf("unknown encoding")
 	}
